@@ -11,6 +11,7 @@ import (
 	"sort"
 	"strconv"
 	"sync/atomic"
+	"syscall"
 	"testing"
 	"time"
 )
@@ -106,6 +107,12 @@ func WorkerMain(t *testing.T) {
 	if !ok {
 		fmt.Fprintf(os.Stderr, "worker: unknown property %q\n", propID)
 		os.Exit(2)
+	}
+	if lim := envInt("VERIF_AS_LIMIT_MB", 0); lim > 0 {
+		// a legitimate but enormous result (string repetition) must end in the runtime's
+		// "out of memory", quickly, not in the machine swapping
+		r := syscall.Rlimit{Cur: uint64(lim) << 20, Max: uint64(lim) << 20}
+		syscall.Setrlimit(syscall.RLIMIT_AS, &r)
 	}
 	tier := os.Getenv("VERIF_TIER")
 	if tier == "" {
